@@ -5,11 +5,11 @@ Helper lemmas for C20 (property theorems are in `Qx/Props/C20.lean`).
 1. strict total orders (`StrictTotal`), lexicographic order on lists, pull-back along injective maps;
 2. insertion sort: sorted, permutation, uniqueness of the sorted permutation, congruence in the comparison;
 3. `removeDuplicates` of a sorted list: strictly sorted, same members;
-4. `QString::operator<` (`lt16`) is a strict total order (UTF-16 encoding is injective on scalar values);
-5. the QMap model (`buildMap`);
-6. S as a separator-terminated token list; injectivity;
-7. UTF-8 octet order = code point order; UTF-16 order = code point order on the BMP;
-8. where the C++ and the XEP agree (`OrdersAgree`, `Plain` values).
+4. `QString::operator<` (`lt16`, the QMap's order) is a strict total order (UTF-16 is injective on scalar values);
+5. UTF-8 octet order = code point order, hence `lt8` (the collation of the C++ and of the XEP) is a strict total order;
+6. the QMap model (`buildMap`) and the key-sorted entries;
+7. reordering of the form; S as a separator-terminated token list; injectivity;
+8. where the C++ and the XEP agree (`Plain` values).
 -/
 namespace Qx.C20
 
@@ -197,6 +197,21 @@ theorem isort_congr {lt₁ lt₂ : α → α → Bool} :
     rw [← isort_congr xs (fun a ha b hb => hl a (mem_cons_of_mem _ ha) b (mem_cons_of_mem _ hb))]
     exact insertBy_congr x _ (fun b hb =>
       hl x mem_cons_self b (mem_cons_of_mem _ ((mem_isort lt₁ xs b).mp hb)))
+
+theorem insertBy_map {β : Type} (f : α → β) (lt : β → β → Bool) (x : α) :
+    ∀ l : List α, insertBy lt (f x) (l.map f) = (insertBy (fun a b => lt (f a) (f b)) x l).map f
+  | [] => rfl
+  | y :: ys => by
+    simp only [map_cons, insertBy]
+    split
+    · rfl
+    · simp only [map_cons, insertBy_map f lt x ys]
+
+/-- sorting commutes with a map that is compatible with the comparison -/
+theorem isort_map {β : Type} (f : α → β) (lt : β → β → Bool) :
+    ∀ l : List α, isort lt (l.map f) = (isort (fun a b => lt (f a) (f b)) l).map f
+  | [] => rfl
+  | x :: xs => by simp only [map_cons, isort, isort_map f lt xs, insertBy_map]
 
 theorem isort_length (lt : α → α → Bool) (l : List α) : (isort lt l).length = l.length :=
   (isort_perm lt l).length_eq
@@ -387,6 +402,138 @@ theorem identityLessThan_strictTotal {lt : Str → Str → Bool} (h : StrictTota
   exact (lexBy_strictTotal h).comap idKey idKey_injective
 
 
+/-! ## 5. octet order = code point order; `lt8` is a strict total order -/
+
+theorem flatMap_congr' {α β : Type} {l : List α} {f g : α → List β} (h : ∀ a ∈ l, f a = g a) :
+    l.flatMap f = l.flatMap g := by
+  rw [flatMap_def, flatMap_def, map_congr_left h]
+
+
+theorem lexLt_irrefl (a : List Nat) : lexLt a a = false := lexLt_strictTotal.irrefl a
+
+theorem lexLt_append_left : ∀ (p a b : List Nat), lexLt (p ++ a) (p ++ b) = lexLt a b
+  | [], _, _ => rfl
+  | x :: p, a, b => by
+    simp only [cons_append, lexLt, Nat.lt_irrefl, if_false]
+    exact lexLt_append_left p a b
+
+/-- UTF-8 octets of one scalar value, as numbers -/
+def encN (c : Nat) : List Nat :=
+  if c < 0x80 then [c]
+  else if c < 0x800 then [0xC0 + c / 64, 0x80 + c % 64]
+  else if c < 0x10000 then [0xE0 + c / 4096, 0x80 + c / 64 % 64, 0x80 + c % 64]
+  else [0xF0 + c / 262144, 0x80 + c / 4096 % 64, 0x80 + c / 64 % 64, 0x80 + c % 64]
+
+theorem toNat_ofNat8 (n : Nat) (h : n < 256) : (UInt8.ofNat n).toNat = n := by
+  simp [UInt8.toNat_ofNat', Nat.mod_eq_of_lt h]
+
+theorem encodeCp_eq (c : Char) : (Utf8.encodeCp c.toNat).map UInt8.toNat = encN c.toNat := by
+  have hc := char_scalar c
+  unfold Utf8.encodeCp encN
+  split
+  · simp only [map_cons, map_nil]; rw [toNat_ofNat8 _ (by omega)]
+  · split
+    · simp only [map_cons, map_nil]; rw [toNat_ofNat8 _ (by omega), toNat_ofNat8 _ (by omega)]
+    · split
+      · omega
+      · split
+        · simp only [map_cons, map_nil]
+          rw [toNat_ofNat8 _ (by omega), toNat_ofNat8 _ (by omega), toNat_ofNat8 _ (by omega)]
+        · split
+          · simp only [map_cons, map_nil]
+            rw [toNat_ofNat8 _ (by omega), toNat_ofNat8 _ (by omega), toNat_ofNat8 _ (by omega), toNat_ofNat8 _ (by omega)]
+          · omega
+
+theorem utf8_eq (s : Str) : utf8 s = s.flatMap (fun c => encN c.toNat) := by
+  simp only [utf8, Utf8.encode, cps, flatMap_map, map_flatMap]
+  apply flatMap_congr'
+  intro c _
+  exact encodeCp_eq c
+
+theorem encN_ne_nil (c : Nat) : encN c ≠ [] := by
+  unfold encN; split <;> (try split) <;> (try split) <;> simp
+
+/-- a smaller scalar value has the smaller octet sequence, whatever follows -/
+theorem encN_mono (c d : Nat) (hd : d < 0x110000) (h : c < d) (A B : List Nat) :
+    lexLt (encN c ++ A) (encN d ++ B) = true := by
+  unfold encN
+  split <;> split <;> (try split) <;> (try split) <;> (try split) <;> (try split)
+  all_goals simp only [cons_append, nil_append, lexLt]
+  all_goals (repeat' split)
+  all_goals first | rfl | omega
+
+/-- an order-embedding, prefix-compatible encoding of the elements carries the lexicographic order over -/
+theorem lexLt_flatMap_mono (enc : Nat → List Nat) (P : Nat → Prop)
+    (hne : ∀ c, enc c ≠ [])
+    (hmono : ∀ c d A B, P c → P d → c < d → lexLt (enc c ++ A) (enc d ++ B) = true) :
+    ∀ a b : List Nat, (∀ c ∈ a, P c) → (∀ c ∈ b, P c) → lexLt a b = true →
+      lexLt (a.flatMap enc) (b.flatMap enc) = true
+  | _, [], _, _, h => by cases ‹List Nat› <;> simp [lexLt] at h
+  | [], d :: ds, _, _, _ => by
+    simp only [flatMap_nil, flatMap_cons]
+    cases he : enc d with
+    | nil => exact absurd he (hne d)
+    | cons x xs => rfl
+  | c :: cs, d :: ds, ha, hb, h => by
+    simp only [lexLt] at h
+    simp only [flatMap_cons]
+    by_cases hcd : c < d
+    · exact hmono c d _ _ (ha c mem_cons_self) (hb d mem_cons_self) hcd
+    · by_cases hdc : d < c
+      · simp [hcd, hdc] at h
+      · have e : c = d := by omega
+        subst e
+        simp only [hcd, if_false] at h
+        rw [lexLt_append_left]
+        exact lexLt_flatMap_mono enc P hne hmono cs ds (fun x hx => ha x (mem_cons_of_mem _ hx))
+          (fun x hx => hb x (mem_cons_of_mem _ hx)) h
+
+theorem lexLt_flatMap_eq (enc : Nat → List Nat) (P : Nat → Prop)
+    (hne : ∀ c, enc c ≠ [])
+    (hmono : ∀ c d A B, P c → P d → c < d → lexLt (enc c ++ A) (enc d ++ B) = true)
+    (a b : List Nat) (ha : ∀ c ∈ a, P c) (hb : ∀ c ∈ b, P c) :
+    lexLt (a.flatMap enc) (b.flatMap enc) = lexLt a b := by
+  cases hab : lexLt a b with
+  | true => exact lexLt_flatMap_mono enc P hne hmono a b ha hb hab
+  | false =>
+    cases hba : lexLt b a with
+    | true =>
+      exact lexLt_strictTotal.asymm _ _ (lexLt_flatMap_mono enc P hne hmono b a hb ha hba)
+    | false =>
+      rw [lexLt_strictTotal.total a b hab hba]
+      exact lexLt_irrefl _
+
+theorem cps_scalar (s : Str) : ∀ c ∈ cps s, c < 0x110000 := by
+  intro c hc
+  simp only [cps, mem_map] at hc
+  obtain ⟨ch, _, rfl⟩ := hc
+  have := char_scalar ch
+  omega
+
+theorem flatMap_cps (s : Str) (f : Nat → List Nat) : s.flatMap (fun c => f c.toNat) = (cps s).flatMap f := by
+  simp [cps, flatMap_map]
+
+/-- **i;octet on UTF-8 is code point order** (for all well-formed strings) -/
+theorem lt8_eq_cp (a b : Str) : lt8 a b = lexLt (cps a) (cps b) := by
+  simp only [lt8, utf8_eq, flatMap_cps]
+  exact lexLt_flatMap_eq encN (· < 0x110000) encN_ne_nil
+    (fun c d A B _ hd h => encN_mono c d hd h A B) _ _ (cps_scalar a) (cps_scalar b)
+
+theorem cps_injective : ∀ a b : Str, cps a = cps b → a = b
+  | [], [], _ => rfl
+  | [], _ :: _, h => by simp [cps] at h
+  | _ :: _, [], h => by simp [cps] at h
+  | c :: cs, d :: ds, h => by
+    simp only [cps, map_cons, cons.injEq] at h
+    have e : c = d := Char.ext (UInt32.toNat_inj.mp h.1)
+    rw [e, cps_injective cs ds (by simpa [cps] using h.2)]
+
+/-- the octet collation is a strict total order on well-formed strings -/
+theorem lt8_strictTotal : StrictTotal lt8 := by
+  have e : lt8 = fun a b => lexLt (cps a) (cps b) := by funext a b; exact lt8_eq_cp a b
+  rw [e]
+  exact lexLt_strictTotal.comap cps cps_injective
+
 section Weak
 variable {α : Type}
 /-- `insertBy`/`isort` keep a list sorted as soon as the comparison is irreflexive and transitive -/
@@ -430,7 +577,7 @@ theorem perm_eq_of_all_eq {l₁ l₂ : List α} (p : l₁ ~ l₂) (h : ∀ a ∈
     (pairwise_of_forall (fun _ _ => trivial)) p
 end Weak
 
-/-! ## 5. the QMap -/
+/-! ## 6. the QMap -/
 
 def keyLt (a b : Field) : Bool := lt16 a.key b.key
 
@@ -551,19 +698,26 @@ theorem buildMap_eq_of_perm {fa fb : List Field} (hn : (fa.map Field.key).Nodup)
     (fun a b _ _ hab hba => by rw [keyLt_asymm a b hab] at hba; exact absurd hba (by simp))
     (buildMap_sorted fa) (buildMap_sorted fb) pp
 
-/-- … and any filtered part of it is the filtered field list sorted by key -/
-theorem buildMap_filter (fs : List Field) (hn : (fs.map Field.key).Nodup) (q : Field → Bool) :
-    (buildMap fs).filter q = isort keyLt (fs.filter q) := by
-  have s1 : Sorted keyLt ((buildMap fs).filter q) :=
-    Pairwise.filter q ((buildMap_sorted fs).imp (fun {a b} h => keyLt_asymm a b h))
-  have s2 : Sorted keyLt (isort keyLt (fs.filter q)) := isort_sorted' keyLt_irrefl keyLt_trans _
-  have pp : (buildMap fs).filter q ~ isort keyLt (fs.filter q) :=
-    ((buildMap_perm fs hn).filter q).trans (isort_perm keyLt _).symm
-  refine Perm.eq_of_pairwise (le := fun a b => keyLt b a = false) ?_ s1 s2 pp
+theorem keyLt8_irrefl (a : Field) : keyLt8 a a = false := lt8_strictTotal.irrefl _
+theorem keyLt8_trans (a b c : Field) : keyLt8 a b = true → keyLt8 b c = true → keyLt8 a c = true :=
+  lt8_strictTotal.trans _ _ _
+
+/-- entries with distinct keys have exactly one key-sorted (octet order) arrangement -/
+theorem isort_keyLt8_eq_of_perm {l₁ l₂ : List Field} (hn : (l₁.map Field.key).Nodup) (p : l₁ ~ l₂) :
+    isort keyLt8 l₁ = isort keyLt8 l₂ := by
+  refine Perm.eq_of_pairwise (le := fun a b => keyLt8 b a = false) ?_
+    (isort_sorted' keyLt8_irrefl keyLt8_trans l₁) (isort_sorted' keyLt8_irrefl keyLt8_trans l₂)
+    ((isort_perm keyLt8 l₁).trans (p.trans (isort_perm keyLt8 l₂).symm))
   intro a b ha hb hab hba
-  have ha' : a ∈ fs := (buildMap_perm fs hn).mem_iff.mp (mem_filter.mp ha).1
-  have hb' : b ∈ fs := (mem_filter.mp ((mem_isort keyLt _ b).mp hb)).1
-  exact eq_of_key_eq hn ha' hb' (lt16_strictTotal.total _ _ hba hab)
+  have ha' : a ∈ l₁ := (mem_isort keyLt8 _ a).mp ha
+  have hb' : b ∈ l₁ := p.mem_iff.mpr ((mem_isort keyLt8 _ b).mp hb)
+  exact eq_of_key_eq hn ha' hb' (lt8_strictTotal.total _ _ hba hab)
+
+/-- … and the key-sorted part of it is the key-sorted part of the field list -/
+theorem buildMap_filter (fs : List Field) (hn : (fs.map Field.key).Nodup) (q : Field → Bool) :
+    isort keyLt8 ((buildMap fs).filter q) = isort keyLt8 (fs.filter q) := by
+  have hn' : ((fs.filter q).map Field.key).Nodup := Nodup.sublist ((filter_sublist).map Field.key) hn
+  exact (isort_keyLt8_eq_of_perm hn' ((buildMap_perm fs hn).filter q).symm).symm
 
 theorem buildMap_find (fs : List Field) (hn : (fs.map Field.key).Nodup) (k : Str) :
     (buildMap fs).find? (fun f => f.key = k) = fs.find? (fun f => f.key = k) := by
@@ -579,11 +733,7 @@ theorem buildMap_find (fs : List Field) (hn : (fs.map Field.key).Nodup) (k : Str
   rw [e1, e2]
 
 
-/-! ## 6. reordering of the form; S as a token list -/
-
-theorem flatMap_congr' {α β : Type} {l : List α} {f g : α → List β} (h : ∀ a ∈ l, f a = g a) :
-    l.flatMap f = l.flatMap g := by
-  rw [flatMap_def, flatMap_def, map_congr_left h]
+/-! ## 7. reordering of the form; S as a token list -/
 
 /-- element-wise relation between two lists of the same length -/
 inductive Pointwise {α β : Type} (R : α → β → Prop) : List α → List β → Prop
@@ -612,7 +762,7 @@ def DistinctKeys : Option (List Field) → Prop
   | some fs => (fs.map Field.key).Nodup
 
 def normValue : Value → Value
-  | .list l => .list (isort lt16 l)
+  | .list l => .list (isort lt8 l)
   | v => v
 
 def normField (f : Field) : Field := { key := f.key, value := normValue f.value }
@@ -620,7 +770,7 @@ def normField (f : Field) : Field := { key := f.key, value := normValue f.value 
 theorem normValue_eq_of_permuted {v w : Value} (h : v.Permuted w) : normValue v = normValue w := by
   cases v <;> cases w <;> simp only [Value.Permuted] at h
   · rw [h]
-  · simp only [normValue]; rw [isort_eq_of_perm lt16_strictTotal h]
+  · simp only [normValue]; rw [isort_eq_of_perm lt8_strictTotal h]
   · rw [h]
 
 theorem normField_eq_of_permuted {f g : Field} (h : f.Permuted g) : normField f = normField g := by
@@ -652,8 +802,8 @@ theorem toStr_normValue (v : Value) : (normValue v).toStr = v.toStr := by
     | [] => rfl
     | [w] => rfl
     | a :: b :: r =>
-      have hl := isort_length lt16 (a :: b :: r)
-      match hs : isort lt16 (a :: b :: r), hl with
+      have hl := isort_length lt8 (a :: b :: r)
+      match hs : isort lt8 (a :: b :: r), hl with
       | x :: y :: z, _ => rfl
 
 theorem codeVals_normValue (v : Value) : (normValue v).codeVals = v.codeVals := by
@@ -662,7 +812,7 @@ theorem codeVals_normValue (v : Value) : (normValue v).codeVals = v.codeVals := 
   | bool b => rfl
   | list l =>
     simp only [normValue, Value.codeVals]
-    exact isort_of_sorted lt16_strictTotal (isort_sorted lt16_strictTotal l)
+    exact isort_of_sorted lt8_strictTotal (isort_sorted lt8_strictTotal l)
 
 theorem fieldStrCode_normField (f : Field) : fieldStrCode (normField f) = fieldStrCode f := by
   simp [fieldStrCode, normField, codeVals_normValue]
@@ -692,15 +842,19 @@ theorem buildMap_map_normField (fs : List Field) :
     buildMap (fs.map normField) = (buildMap fs).map normField :=
   foldl_mapInsert_map_normField fs []
 
+theorem isort_keyLt8_map_normField (l : List Field) :
+    isort keyLt8 (l.map normField) = (isort keyLt8 l).map normField :=
+  isort_map normField keyLt8 l
+
 /-- sorting the values inside the fields beforehand changes nothing -/
 theorem formStrCode_normField (fs : List Field) :
     formStrCode (some (fs.map normField)) = formStrCode (some fs) := by
-  simp only [formStrCode, buildMap_map_normField, find?_map, filter_map, flatMap_map]
+  simp only [formStrCode, buildMap_map_normField, find?_map, filter_map]
   have e1 : ((fun f : Field => decide (f.key = formTypeKey)) ∘ normField) = fun f => decide (f.key = formTypeKey) := by
     funext f; rfl
   have e2 : ((fun f : Field => decide (f.key ≠ formTypeKey)) ∘ normField) = fun f => decide (f.key ≠ formTypeKey) := by
     funext f; rfl
-  rw [e1, e2]
+  rw [e1, e2, isort_keyLt8_map_normField, flatMap_map]
   cases (buildMap fs).find? (fun f => decide (f.key = formTypeKey)) with
   | none => rfl
   | some ft =>
@@ -759,7 +913,7 @@ def formParts (form : Option (List Field)) : Option (Field × List Field) :=
   | some fields =>
     match (buildMap fields).find? (fun f => f.key = formTypeKey) with
     | none => none
-    | some ft => some (ft, (buildMap fields).filter (fun f => f.key ≠ formTypeKey))
+    | some ft => some (ft, isort keyLt8 ((buildMap fields).filter (fun f => f.key ≠ formTypeKey)))
 
 def formTokens (form : Option (List Field)) : List Str :=
   match formParts form with
@@ -862,7 +1016,8 @@ theorem formParts_mem {fs : List Field} {p : Field × List Field} (h : formParts
   | some ft =>
     simp only [hf, Option.some.injEq] at h
     subst h
-    exact ⟨mem_buildMap (mem_of_find?_eq_some hf), fun f hm => mem_buildMap (mem_filter.mp hm).1⟩
+    exact ⟨mem_buildMap (mem_of_find?_eq_some hf),
+      fun f hm => mem_buildMap (mem_filter.mp ((mem_isort keyLt8 _ f).mp hm)).1⟩
 
 theorem toStr_noChar (c : Char) (hc : c ∉ "true".toList ∧ c ∉ "false".toList) (v : Value)
     (h : ∀ s ∈ v.strings, c ∉ s) : c ∉ v.toStr := by
@@ -1066,140 +1221,7 @@ theorem canon_eq_of_tokens_eq {a b : Info} (hsa : NoSlash a) (hsb : NoSlash b)
   simp [e1, x2.1, e3]
 
 
-/-! ## 7. octet order = code point order; UTF-16 order = code point order on the BMP -/
-
-theorem lexLt_irrefl (a : List Nat) : lexLt a a = false := lexLt_strictTotal.irrefl a
-
-theorem lexLt_append_left : ∀ (p a b : List Nat), lexLt (p ++ a) (p ++ b) = lexLt a b
-  | [], _, _ => rfl
-  | x :: p, a, b => by
-    simp only [cons_append, lexLt, Nat.lt_irrefl, if_false]
-    exact lexLt_append_left p a b
-
-/-- UTF-8 octets of one scalar value, as numbers -/
-def encN (c : Nat) : List Nat :=
-  if c < 0x80 then [c]
-  else if c < 0x800 then [0xC0 + c / 64, 0x80 + c % 64]
-  else if c < 0x10000 then [0xE0 + c / 4096, 0x80 + c / 64 % 64, 0x80 + c % 64]
-  else [0xF0 + c / 262144, 0x80 + c / 4096 % 64, 0x80 + c / 64 % 64, 0x80 + c % 64]
-
-theorem toNat_ofNat8 (n : Nat) (h : n < 256) : (UInt8.ofNat n).toNat = n := by
-  simp [UInt8.toNat_ofNat', Nat.mod_eq_of_lt h]
-
-theorem encodeCp_eq (c : Char) : (Utf8.encodeCp c.toNat).map UInt8.toNat = encN c.toNat := by
-  have hc := char_scalar c
-  unfold Utf8.encodeCp encN
-  split
-  · simp only [map_cons, map_nil]; rw [toNat_ofNat8 _ (by omega)]
-  · split
-    · simp only [map_cons, map_nil]; rw [toNat_ofNat8 _ (by omega), toNat_ofNat8 _ (by omega)]
-    · split
-      · omega
-      · split
-        · simp only [map_cons, map_nil]
-          rw [toNat_ofNat8 _ (by omega), toNat_ofNat8 _ (by omega), toNat_ofNat8 _ (by omega)]
-        · split
-          · simp only [map_cons, map_nil]
-            rw [toNat_ofNat8 _ (by omega), toNat_ofNat8 _ (by omega), toNat_ofNat8 _ (by omega), toNat_ofNat8 _ (by omega)]
-          · omega
-
-theorem utf8_eq (s : Str) : utf8 s = s.flatMap (fun c => encN c.toNat) := by
-  simp only [utf8, Utf8.encode, cps, flatMap_map, map_flatMap]
-  apply flatMap_congr'
-  intro c _
-  exact encodeCp_eq c
-
-theorem encN_ne_nil (c : Nat) : encN c ≠ [] := by
-  unfold encN; split <;> (try split) <;> (try split) <;> simp
-
-/-- a smaller scalar value has the smaller octet sequence, whatever follows -/
-theorem encN_mono (c d : Nat) (hd : d < 0x110000) (h : c < d) (A B : List Nat) :
-    lexLt (encN c ++ A) (encN d ++ B) = true := by
-  unfold encN
-  split <;> split <;> (try split) <;> (try split) <;> (try split) <;> (try split)
-  all_goals simp only [cons_append, nil_append, lexLt]
-  all_goals (repeat' split)
-  all_goals first | rfl | omega
-
-/-- an order-embedding, prefix-compatible encoding of the elements carries the lexicographic order over -/
-theorem lexLt_flatMap_mono (enc : Nat → List Nat) (P : Nat → Prop)
-    (hne : ∀ c, enc c ≠ [])
-    (hmono : ∀ c d A B, P c → P d → c < d → lexLt (enc c ++ A) (enc d ++ B) = true) :
-    ∀ a b : List Nat, (∀ c ∈ a, P c) → (∀ c ∈ b, P c) → lexLt a b = true →
-      lexLt (a.flatMap enc) (b.flatMap enc) = true
-  | _, [], _, _, h => by cases ‹List Nat› <;> simp [lexLt] at h
-  | [], d :: ds, _, _, _ => by
-    simp only [flatMap_nil, flatMap_cons]
-    cases he : enc d with
-    | nil => exact absurd he (hne d)
-    | cons x xs => rfl
-  | c :: cs, d :: ds, ha, hb, h => by
-    simp only [lexLt] at h
-    simp only [flatMap_cons]
-    by_cases hcd : c < d
-    · exact hmono c d _ _ (ha c mem_cons_self) (hb d mem_cons_self) hcd
-    · by_cases hdc : d < c
-      · simp [hcd, hdc] at h
-      · have e : c = d := by omega
-        subst e
-        simp only [hcd, if_false] at h
-        rw [lexLt_append_left]
-        exact lexLt_flatMap_mono enc P hne hmono cs ds (fun x hx => ha x (mem_cons_of_mem _ hx))
-          (fun x hx => hb x (mem_cons_of_mem _ hx)) h
-
-theorem lexLt_flatMap_eq (enc : Nat → List Nat) (P : Nat → Prop)
-    (hne : ∀ c, enc c ≠ [])
-    (hmono : ∀ c d A B, P c → P d → c < d → lexLt (enc c ++ A) (enc d ++ B) = true)
-    (a b : List Nat) (ha : ∀ c ∈ a, P c) (hb : ∀ c ∈ b, P c) :
-    lexLt (a.flatMap enc) (b.flatMap enc) = lexLt a b := by
-  cases hab : lexLt a b with
-  | true => exact lexLt_flatMap_mono enc P hne hmono a b ha hb hab
-  | false =>
-    cases hba : lexLt b a with
-    | true =>
-      exact lexLt_strictTotal.asymm _ _ (lexLt_flatMap_mono enc P hne hmono b a hb ha hba)
-    | false =>
-      rw [lexLt_strictTotal.total a b hab hba]
-      exact lexLt_irrefl _
-
-theorem cps_scalar (s : Str) : ∀ c ∈ cps s, c < 0x110000 := by
-  intro c hc
-  simp only [cps, mem_map] at hc
-  obtain ⟨ch, _, rfl⟩ := hc
-  have := char_scalar ch
-  omega
-
-theorem flatMap_cps (s : Str) (f : Nat → List Nat) : s.flatMap (fun c => f c.toNat) = (cps s).flatMap f := by
-  simp [cps, flatMap_map]
-
-/-- **i;octet on UTF-8 is code point order** (for all well-formed strings) -/
-theorem lt8_eq_cp (a b : Str) : lt8 a b = lexLt (cps a) (cps b) := by
-  simp only [lt8, utf8_eq, flatMap_cps]
-  exact lexLt_flatMap_eq encN (· < 0x110000) encN_ne_nil
-    (fun c d A B _ hd h => encN_mono c d hd h A B) _ _ (cps_scalar a) (cps_scalar b)
-
-/-- every character is in the Basic Multilingual Plane -/
-def Bmp (s : Str) : Prop := ∀ c ∈ s, c.toNat < 0x10000
-
-theorem utf16_of_bmp (s : Str) (h : Bmp s) : utf16 s = cps s := by
-  rw [utf16_eq]
-  induction s with
-  | nil => rfl
-  | cons c cs ih =>
-    have hc : c.toNat < 0x10000 := h c mem_cons_self
-    simp only [flatMap_cons, cps, map_cons]
-    rw [ih (fun x hx => h x (mem_cons_of_mem _ hx))]
-    simp [unit16, hc, cps]
-
-/-- **`QString::operator<` is code point order on BMP-only strings**, hence equal to the octet order there -/
-theorem lt16_eq_lt8_of_bmp (a b : Str) (ha : Bmp a) (hb : Bmp b) : lt16 a b = lt8 a b := by
-  rw [lt8_eq_cp, lt16, utf16_of_bmp a ha, utf16_of_bmp b hb]
-
-
 /-! ## 8. where the C++ and the XEP agree -/
-
-/-- the two collations agree on every pair of components -/
-def OrdersAgree (i : Info) : Prop := ∀ s ∈ i.components, ∀ t ∈ i.components, lt16 s t = lt8 s t
 
 /-- a field value that the C++ hashes exactly as it is written to the wire: a non-empty string or a
 non-empty string list (not a boolean, not a value-less field) -/
@@ -1212,45 +1234,13 @@ def PlainForm : Option (List Field) → Prop
   | none => True
   | some fs => ∀ f ∈ fs, f.value.Plain
 
-theorem mem_components_id {i : Info} {d : Identity} (hd : d ∈ i.ids) :
-    d.category ∈ i.components ∧ d.type ∈ i.components ∧ d.lang ∈ i.components ∧ d.name ∈ i.components := by
-  have h : ∀ s ∈ idKey d, s ∈ i.components := fun s hs => by
-    simp only [Info.components, mem_append, mem_flatMap]; exact Or.inl ⟨d, hd, hs⟩
-  simp only [idKey, mem_cons, not_mem_nil, or_false, forall_eq_or_imp, forall_eq] at h
-  exact h
-
-theorem mem_components_feat {i : Info} {f : Str} (hf : f ∈ i.feats) : f ∈ i.components := by
-  simp only [Info.components, mem_append]; exact Or.inr (Or.inl hf)
-
-theorem mem_components_field {i : Info} {fs : List Field} (hform : i.form = some fs) {f : Field} (hf : f ∈ fs) :
-    f.key ∈ i.components ∧ ∀ s ∈ f.value.strings, s ∈ i.components := by
-  have h : ∀ s ∈ f.key :: f.value.strings, s ∈ i.components := fun s hs => by
-    simp only [Info.components, hform, mem_append, mem_flatMap]
-    exact Or.inr (Or.inr ⟨f, hf, hs⟩)
-  exact ⟨h _ mem_cons_self, fun s hs => h s (mem_cons_of_mem _ hs)⟩
-
-theorem sortedIds_agree {i : Info} (h : OrdersAgree i) :
-    isort (identityLessThan lt16) i.ids = isort (identityLessThan lt8) i.ids := by
-  apply isort_congr
-  intro d hd e he
-  have md := mem_components_id hd
-  have me := mem_components_id he
-  simp only [identityLessThan,
-    h _ md.1 _ me.1, h _ me.1 _ md.1, h _ md.2.1 _ me.2.1, h _ me.2.1 _ md.2.1,
-    h _ md.2.2.1 _ me.2.2.1, h _ me.2.2.1 _ md.2.2.1, h _ md.2.2.2 _ me.2.2.2, h _ me.2.2.2 _ md.2.2.2]
-
-theorem sortedFeats_agree {i : Info} (h : OrdersAgree i) : isort lt16 i.feats = isort lt8 i.feats :=
-  isort_congr _ (fun a ha b hb => h a (mem_components_feat ha) b (mem_components_feat hb))
-
 theorem wire_text_ne_nil {s : Str} (h : s ≠ []) : (Value.text s).wire = [s] := by
   cases s with
   | nil => exact absurd rfl h
   | cons _ _ => rfl
 
-/-- a plain field is hashed as the XEP says, provided the collations agree on its values -/
-theorem fieldStr_agree {f : Field} (hp : f.value.Plain)
-    (h : ∀ s ∈ f.value.strings, ∀ t ∈ f.value.strings, lt16 s t = lt8 s t) :
-    fieldStrCode f = fieldStrSpec f := by
+/-- a plain field is hashed as the XEP says -/
+theorem fieldStr_agree {f : Field} (hp : f.value.Plain) : fieldStrCode f = fieldStrSpec f := by
   simp only [fieldStrCode, fieldStrSpec]
   congr 2
   cases hv : f.value with
@@ -1260,11 +1250,10 @@ theorem fieldStr_agree {f : Field} (hp : f.value.Plain)
     simp only [Value.Plain] at hp
     simp [Value.codeVals, wire_text_ne_nil hp, join, isort, insertBy]
   | list l =>
-    rw [hv] at hp h
+    rw [hv] at hp
     simp only [Value.Plain] at hp
-    simp only [Value.strings] at h
     simp only [Value.codeVals, Value.wire]
-    rw [join_sep _ (fun e => hp ((isort_eq_nil _ _).mp e)), isort_congr l h]
+    rw [join_sep _ (fun e => hp ((isort_eq_nil _ _).mp e))]
     rfl
 
 theorem toStr_eq_wire {v : Value} (hp : v.Plain) {w : Str} (hw : v.wire = [w]) : v.toStr = v.wire.flatten := by
@@ -1274,12 +1263,11 @@ theorem toStr_eq_wire {v : Value} (hp : v.Plain) {w : Str} (hw : v.wire = [w]) :
   | list l => simp only [Value.wire] at hw; subst hw; simp [Value.toStr, Value.wire]
 
 /-- the form part: QMap with last-wins/`toString`/`join` against the XEP's steps 6–7 -/
-theorem formStr_agree {i : Info} (h : OrdersAgree i) (hx : XepForm i.form) (hp : PlainForm i.form) :
-    formStrCode i.form = formStrSpec i.form := by
-  cases hform : i.form with
+theorem formStr_agree {form : Option (List Field)} (hx : XepForm form) (hp : PlainForm form) :
+    formStrCode form = formStrSpec form := by
+  cases form with
   | none => rfl
   | some fs =>
-    rw [hform] at hx hp
     simp only [XepForm] at hx
     simp only [PlainForm] at hp
     simp only [formStrCode, formStrSpec]
@@ -1293,20 +1281,9 @@ theorem formStr_agree {i : Info} (h : OrdersAgree i) (hx : XepForm i.form) (hp :
       simp only
       rw [toStr_eq_wire (hp ft hm) hw]
       congr 2
-      have e : isort keyLt (fs.filter (fun f => decide (f.key ≠ formTypeKey)))
-          = isort (fun a b : Field => lt8 a.key b.key) (fs.filter (fun f => decide (f.key ≠ formTypeKey))) := by
-        apply isort_congr
-        intro a ha b hb
-        exact h _ (mem_components_field hform (mem_filter.mp ha).1).1 _ (mem_components_field hform (mem_filter.mp hb).1).1
-      rw [e]
       apply flatMap_congr'
       intro f hf
-      have hf' : f ∈ fs := (mem_filter.mp ((mem_isort _ _ f).mp hf)).1
-      have mc := mem_components_field hform hf'
-      exact fieldStr_agree (hp f hf') (fun s hs t ht => h s (mc.2 s hs) t (mc.2 t ht))
-
-theorem ordersAgree_of_bmp {i : Info} (h : ∀ s ∈ i.components, Bmp s) : OrdersAgree i :=
-  fun s hs t ht => lt16_eq_lt8_of_bmp s t (h s hs) (h t ht)
+      exact fieldStr_agree (hp f (mem_filter.mp ((mem_isort _ _ f).mp hf)).1)
 
 theorem isPrefixOf_self_append : ∀ (p r : Str), p.isPrefixOf (p ++ r) = true
   | [], _ => by simp [isPrefixOf]
@@ -1316,7 +1293,6 @@ theorem isPrefixOf_self_append : ∀ (p r : Str), p.isPrefixOf (p ++ r) = true
 
 instance (c : Char) (i : Info) : Decidable (NoChar c i) := by unfold NoChar; infer_instance
 instance (i : Info) : Decidable (NoSlash i) := by unfold NoSlash; infer_instance
-instance (s : Str) : Decidable (Bmp s) := by unfold Bmp; infer_instance
 instance : (f : Option (List Field)) → Decidable (DistinctKeys f)
   | none => isTrue trivial
   | some fs => inferInstanceAs (Decidable (fs.map Field.key).Nodup)
